@@ -30,7 +30,9 @@ is compared with CPython on every run by `harness/lib/durationcorr.py`).
 * the two repaired variants (`Cfg.fixUnit`, `Cfg.fixValue`; the harness probes which one the tree follows): for ALL N a unit
   code with a numeric prefix is multiplied out — N decades = `P(10N)Y`, N fortnights = `P(2N)W`, value unchanged = the
   same number of seconds (`fixed_multiplied_code`, `fixed_decades`, `fixed_fortnights`), a weekend is `P<N>WE`
-  (`fixed_weekend`), every code that starts with a letter is written as before (all `*_exact` theorems hold in both
+  (`fixed_weekend`), fractional amounts of a prefixed code are multiplied exactly (third switch `Cfg.fixUnitExact`:
+  `fixed_multiplied_is_exact_product`, `fixed_multiplied_fraction`; the float product of the first version of the helper is
+  the labelled regression `multiplied_float_witness`), every code that starts with a letter is written as before (all `*_exact` theorems hold in both
   variants); the value is the exact product of the printed amount and the unit length whenever that is an integer below
   2^53 (`fixed_value_exact`), `1.15 days` = 99360 (`fixed_instances`);
 * set parser: whatever sub-parser fires, both value strings are `Set: ` ++ TIMEX (`set_values`), the each-unit form yields
@@ -403,8 +405,10 @@ theorem fixed_multiplied_code (cfg : Cfg) (N : Nat) (sp code : Str) (k cu : Nat)
   obtain ⟨c, rest, hc⟩ := List.exists_cons_of_ne_nil hne
   subst hc
   have ht : timexOf cfg (.int (N : Int)) c rest = some (durationTimex (N * k) (cu :: ru)) := by
+    have hm : (if cfg.fixUnitExact = true then mulNumFixed (.int (N : Int)) k else mulNum (.int (N : Int)) k) =
+        some (.int ((N : Int) * (k : Int))) := by split <;> rfl
     unfold timexOf timexFixed
-    simp only [hf, if_true, hs, mulNum, Option.map_some, natCast_mul_int, numStr, intStr_nat, hb.1, hb.2, or_self, if_false,
+    simp only [hf, if_true, hs, hm, Option.map_some, natCast_mul_int, numStr, intStr_nat, hb.1, hb.2, or_self, if_false,
       durationTimex, isTime_agrees, List.take, List.append_assoc]
   have hval : valueOf cfg (.int (N : Int)) secs = some (.int ((N : Int) * secs)) := by
     unfold valueOf; split <;> rfl
@@ -481,6 +485,16 @@ theorem reprQ_den_pos (x : Dbl) : 0 < (reprQ x).2 := by
   · exact Nat.one_pos
   · exact Nat.pow_pos (by decide)
 
+/-- the exact product of a float amount: when the decimal `repr(x)` denotes times `k` is an integer `M` below 2^53, the
+result is the `int` `M` — the decimal is multiplied as a rational and rounded once -/
+theorem mulNumFixed_integer (x : Dbl) (k M : Nat) (hneg : x.neg = false) (hM : 0 < M) (hM53 : M < 2 ^ 53)
+    (h : (reprQ x).1 * k = M * (reprQ x).2) : mulNumFixed (.flt x) k = some (.int (M : Int)) := by
+  unfold mulNumFixed
+  simp only [hneg]
+  have := ofQ_exact false ((reprQ x).1 * k) (reprQ x).2 M 0 (reprQ_den_pos x) hM hM53 (by simpa using h) (by omega) (Or.inl rfl)
+  rw [this]
+  simp [floatOrInt_nat]
+
 /-- **repaired value**: an `int` amount is multiplied exactly (any size); for a float amount `x`, when the decimal `repr(x)`
 denotes times the unit length is an integer `M` below 2^53, the value is that integer — no float product is involved. -/
 theorem fixed_value_exact (cfg : Cfg) (hf : cfg.fixValue = true) :
@@ -489,13 +503,60 @@ theorem fixed_value_exact (cfg : Cfg) (hf : cfg.fixValue = true) :
       valueOf cfg (.flt x) k = some (.int (M : Int))) := by
   refine ⟨fun v k => by simp [valueOf, hf, mulNumFixed], ?_⟩
   intro x k M hneg hM hM53 h
-  unfold valueOf mulNumFixed
-  simp only [hf, if_true, hneg]
-  have := ofQ_exact false ((reprQ x).1 * k) (reprQ x).2 M 0 (reprQ_den_pos x) hM hM53 (by simpa using h) (by omega) (Or.inl rfl)
-  rw [this]
-  simp [floatOrInt_nat]
+  unfold valueOf
+  simp only [hf, if_true]
+  exact mulNumFixed_integer x k M hneg hM hM53 h
 
-def enFixed : Cfg := cfgOf ("en-us".toList.map Char.toNat) enExtra enDn true true
+/-- **fractional amounts of a prefixed code** (repaired variant with the exact multiple, `fix: … exact multiple`): the amount
+written in the TIMEX is `float_or_int` of the EXACT product of the printed amount and the prefix, rounded once — the same
+computation as the value's (`mulNumFixed`); no binary float product is involved. -/
+theorem fixed_multiplied_is_exact_product (cfg : Cfg) (n : Num) (c : Nat) (rest : Str) (k : Nat) (u : Str)
+    (hf : cfg.fixUnit = true) (he : cfg.fixUnitExact = true) (hs : splitCode (c :: rest) = some (k, u)) :
+    timexOf cfg n c rest = (mulNumFixed n k).map fun n' =>
+      [80] ++ (if isLessThanDay u then [84] else []) ++ numStr n' ++ (if u = sWE ∨ u = sWD then u else u.take 1) := by
+  simp [timexOf, timexFixed, hf, he, hs]
+
+/-- … in particular, for ALL float amounts `x` whose printed decimal times the prefix is an integer `M` below 2^53
+(2.5 decades = 25 years, 0.5 fortnights = 1 week): the TIMEX is exactly `P[T]M<U>` = `durationTimex M U`, which reads
+back as `M` of the unit (Props/C10). -/
+theorem fixed_multiplied_fraction (cfg : Cfg) (x : Dbl) (c : Nat) (rest : Str) (k M cu : Nat) (ru : Str)
+    (hf : cfg.fixUnit = true) (he : cfg.fixUnitExact = true) (hs : splitCode (c :: rest) = some (k, cu :: ru))
+    (hb : cu :: ru ≠ sWE ∧ cu :: ru ≠ sWD)
+    (hneg : x.neg = false) (hM : 0 < M) (hM53 : M < 2 ^ 53) (h : (reprQ x).1 * k = M * (reprQ x).2) :
+    timexOf cfg (.flt x) c rest = some (durationTimex M (cu :: ru)) := by
+  rw [fixed_multiplied_is_exact_product cfg _ c rest k (cu :: ru) hf he hs, mulNumFixed_integer x k M hneg hM hM53 h]
+  simp only [Option.map_some, numStr, intStr_nat, hb.1, hb.2, or_self, if_false, durationTimex, isTime_agrees, List.take,
+    List.append_assoc]
+
+/-- the tree between `fix: duration unit codes` and its follow-up (`fixUnitExact = false`) multiplies in binary: the amount
+in the TIMEX is `float_or_int(num * k)` -/
+theorem float_multiplied_is_float_product (cfg : Cfg) (n : Num) (c : Nat) (rest : Str) (k : Nat) (u : Str)
+    (hf : cfg.fixUnit = true) (he : cfg.fixUnitExact = false) (hs : splitCode (c :: rest) = some (k, u)) :
+    timexOf cfg n c rest = (mulNum n k).map fun n' =>
+      [80] ++ (if isLessThanDay u then [84] else []) ++ numStr n' ++ (if u = sWE ∨ u = sWD then u else u.take 1) := by
+  simp [timexOf, timexFixed, hf, he, hs]
+
+def enFixed : Cfg := cfgOf ("en-us".toList.map Char.toNat) enExtra enDn true true true
+/-- the tree at 39e08b997: both fixes, the multiple of a prefixed code still a float product -/
+def enFixedFloat : Cfg := cfgOf ("en-us".toList.map Char.toNat) enExtra enDn true true false
+
+/-- **regression witness for the first version of `_duration_timex`** (`float_or_int(num * int(prefix))`, trees 08470c06d …
+before the follow-up): a fractional number of decades prints float noise in the TIMEX while the value is exact —
+`0.14 decades` → `P1.4000000000000001Y`, `2713.11 decades` → `P27131.100000000002Y`. -/
+theorem multiplied_float_witness :
+    showRes (numberSpaceUnit enFixedFloat 1 ⟨false, 14, -2⟩ (some (str "decades")) none) = some (str "P1.4000000000000001Y", str "44150400") ∧
+    showRes (numberSpaceUnit enFixedFloat 1 ⟨false, 271311, -2⟩ (some (str "decades")) none) =
+      some (str "P27131.100000000002Y", str "855606369600") ∧
+    showRes (numberSpaceUnit enFixedFloat 1 ⟨false, 3, 0⟩ (some (str "decades")) none) = some (str "P30Y", str "946080000") := by
+  decide +kernel
+
+/-- the follow-up variant on the same inputs: `P1.4Y`, `P27131.1Y`; fortnights: `0.07 fortnights` → `P0.14W` -/
+theorem fixed_fraction_instances :
+    showRes (numberSpaceUnit enFixed 1 ⟨false, 14, -2⟩ (some (str "decades")) none) = some (str "P1.4Y", str "44150400") ∧
+    showRes (numberSpaceUnit enFixed 1 ⟨false, 271311, -2⟩ (some (str "decades")) none) = some (str "P27131.1Y", str "855606369600") ∧
+    showRes (numberSpaceUnit enFixed 1 ⟨false, 7, -2⟩ (some (str "fortnights")) none) = some (str "P0.14W", str "84672") ∧
+    showRes (numberCombinedUnit enFixed (some (str "2.5", str "decades")) none) = some (str "P25Y", str "788400000") := by
+  decide +kernel
 
 /-- the repaired variants on the regenerated English table: `1.15 days` = 99360 s, `4.35 hours` = 15660 s,
 `1774.8353 months`, decades / fortnights / weekends (also fractional and article forms), and the ordinary units unchanged -/
